@@ -56,6 +56,7 @@ class ServerModel:
         tw.ncb = 0
         tw.outstanding = {}   # (slot, ns) -> ids seen on emitted events
         tw.emitted = {}       # (slot, ns) -> emits with callback so far
+        tw.groupcb = 0        # callback emits addressed to a whole namespace
         self.compare(tw, 'initial')
         return tw
 
@@ -83,14 +84,18 @@ class ServerModel:
                     ops.append(('leave', s, ns))
                     if s == 0:
                         ops.append(('hdr', s, ns))
-                        if tw.emitted.get((s, ns), 0) < 2:
+                    if s == 0 or ns == '/':
+                        if tw.emitted.get((s, ns), 0) < (2 if s == 0 else 1):
                             ops.append(('emitcb', s, ns))
+                    if s == 0:
                         ops.append(('save', s, ns))
                         for id in sorted(tw.outstanding.get((s, ns),
                                                             ()))[:2]:
                             ops.append(('ack', s, ns, id))
         for ns in NSS:
             ops.append(('close', ns))
+            if tw.groupcb < 1 and sum(1 for c in tw.conn if c[1] == ns) > 1:
+                ops.append(('emitcb-all', ns))
         return ops
 
     def _bad(self, tw, key, msg):
@@ -187,6 +192,18 @@ class ServerModel:
             for f in o['frames'][tw.s.slot[s]]:
                 if f[0] == 'pkt' and f[1] == 2 and f[3] is not None:
                     tw.outstanding.setdefault((s, ns), set()).add(f[3])
+        elif kind == 'emitcb-all':
+            # a callback emit addressed to several clients (implemented,
+            # if unsupported): both twins must still send the same packets
+            _, ns = op
+            tw.groupcb += 1
+            o = self._do(tw, op, lambda w: w.api(
+                'emit', 'qq', 0, namespace=ns,
+                callback=lambda *a, w=w: w.cb.append(('all', a))))
+            for s in range(self.T):
+                for f in o['frames'][tw.s.slot[s]]:
+                    if f[0] == 'pkt' and f[1] == 2 and f[3] is not None:
+                        tw.outstanding.setdefault((s, ns), set()).add(f[3])
         elif kind == 'ack':
             _, s, ns, id = op
             self._do(tw, op, lambda w: w.recv_packet(w.slot[s], 3, ns, id,
@@ -215,7 +232,7 @@ class ServerModel:
                 tuple(sorted((s, len(v)) for s, v in tw.pend.items())),
                 tuple(sorted((k, tuple(sorted(v)))
                              for k, v in tw.outstanding.items() if v)),
-                tuple(sorted(tw.emitted.items())))
+                tuple(sorted(tw.emitted.items())), tw.groupcb)
 
     def probe(self, tw):
         k = 0
